@@ -53,14 +53,24 @@ func (r *ascii85Reader) Read(p []byte) (n int, err error) {
 	if len(p) == 0 {
 		return 0, nil
 	}
-	if r.immediateError != nil {
-		return 0, r.immediateError
-	}
 
+	// Decoded bytes which did not fit into the previous buffer are delivered
+	// before any error (including the end of the data) is reported.
 	if len(r.leftover) > 0 {
 		n = copy(p, r.leftover)
 		r.leftover = r.leftover[n:]
 	}
+	if len(r.leftover) > 0 {
+		return n, nil
+	}
+	if r.immediateError != nil {
+		return n, r.immediateError
+	}
+	defer func() {
+		if len(r.leftover) > 0 {
+			err = nil
+		}
+	}()
 
 	for n < len(p) {
 		// get the next input byte
